@@ -14,9 +14,11 @@ Environment:
                 seen to be quiet.  Model names: namePL shortPL cumulative slatePL nameBT slateBT IC AC Cambridge
                 nameBT_mcmc slateBT_mcmc spatial1d spatial clustered.  Further tags: `split3` (the AC / Cambridge points
                 with 3 ballots for 4 voter types), `camorder` (CambridgeSampler with interval dictionaries in slate order).
+  C16_ONLY      comma separated model names / tags: run only these (development aid; the evidence then covers only them).
+  C16_SKIP_MC   1: skip the bounded model checking of the specification itself (development aid for mutation runs).
   C16_MAX_PATHS overrides the per-point path budget of the explorer.
 """
-import random, os, json, itertools, pickle, multiprocessing as mp, threading
+import random, os, json, itertools, pickle, multiprocessing as mp
 from fractions import Fraction as F
 from ..common import Result, OUT, scratch, run_tlc, Machinery, tlc_error_excerpt, rat, quiet
 from ..calltrace import judge_calls
@@ -25,9 +27,9 @@ PID = "C16"
 MC_GROUPS = [["BagLawSumsToOne"], ["CambridgeSumsToOne", "PLRestrictedToSlates", "HHTotals"],
              ["NameBTChain", "SlateBTChain", "ChainTargetsAreTheTables"],
              ["PLSumsToOne", "CumulativeSumsToOne", "CumulativeMean", "SlatePLTypeSumsToOne", "SlatePLFirstSlot", "SlatePLSumsToOne"],
-             ["SlateBTTypeSumsToOne", "SlateBTSumsToOne", "OneEach", "NameBTSumsToOne", "NameBTFormsAgree", "NameBTTwo", "ICSumsToOne", "ACSumsToOne"]]
+             ["SlateBTTypeSumsToOne", "SlateBTSumsToOne", "OneEach", "NameBTSumsToOne", "NameBTFormsAgree", "NameBTTwo", "NameBTCombined", "ICSumsToOne", "ACSumsToOne"]]
 BLANK = {"op": "", "own": "", "opp": "", "iv": [], "coh": [], "k": 0, "ntot": 0, "props": [], "tix": [1, 1], "hist": [], "labels": ["", ""],
-         "law": [], "den": 1, "kernel": [], "seed": [], "cpos": [], "vpos": [], "metric": "", "error": ""}
+         "law": [], "den": 1, "complete": True, "kernel": [], "seed": [], "cpos": [], "vpos": [], "metric": "", "error": ""}
 HIST = [[["W", "C"], 3], [["W", "W", "C", "C"], 1], [["W"], 1], [["C", "W"], 2], [["C", "C", "W", "W"], 1], [["C", "W", "C"], 1]]
 
 
@@ -36,10 +38,10 @@ def fr(x):
 
 
 # ----------------------------------------------------------------------------- running one parameter point on the real code
-def _setup():
+def _setup(real_df=False):
     from .. import elections as E
     from .. import rng_gen
-    E.fast_df(True)
+    E.fast_df(not real_df)          # a slice of the grid runs with the real pandas display frame
     rng_gen.install()
 
 
@@ -125,12 +127,13 @@ def _guard(f):
 
 
 def _law_json(d):
-    """law over a common denominator: ([[outcome, numerator], ...], denominator)"""
+    """[[outcome, n, d], ...] plus the common denominator if it fits TLC's integers (else 0) and whether the law sums to one"""
     import math
     den = 1
     for p in d.values():
         den = den * p.denominator // math.gcd(den, p.denominator)
-    return sorted([[json.loads(k), int(p * den)] for k, p in d.items()], key=lambda e: json.dumps(e[0])), den
+    law = sorted([[json.loads(k), p.numerator, p.denominator] for k, p in d.items()], key=lambda e: json.dumps(e[0]))
+    return law, (den if den < 2 ** 30 else 0), sum(d.values()) == 1
 
 
 def _trace(inp, b, op, **kw):
@@ -155,11 +158,11 @@ def _voter_types(inp):
 
 def point_work(inp):
     """one parameter point -> list of traces (one per voter bloc)"""
-    _setup()
+    _setup(inp.get("real_df", False))
     import votekit.ballot_generator as bg
     from votekit.ballot import Ballot
     model = inp["model"]
-    mp_ = int(os.environ.get("C16_MAX_PATHS") or inp.get("max_paths", 20000))
+    mp_ = int(os.environ.get("C16_MAX_PATHS") or inp.get("max_paths", 8000))
     if model in ("spatial1d", "spatial", "clustered"):
         return spatial_work(inp)
     blocs = inp["blocs"]
@@ -194,6 +197,7 @@ def point_work(inp):
             from ..common import stable_hash
             path = os.path.join(OUT, PID, "hist_%s_%d.p" % (stable_hash(inp["hist"]), os.getpid()))
             if not os.path.exists(path):
+                os.makedirs(os.path.dirname(path), exist_ok=True)
                 with open(path, "wb") as fh:
                     pickle.dump({tuple(t): n for t, n in inp["hist"]}, fh)
             g = bg.CambridgeSampler(path=path, **kw)
@@ -227,8 +231,8 @@ def point_work(inp):
         if err or laws is None:
             t["error"] = err or "NoOutcome"
         else:
-            t["law"], t["den"] = _law_json(laws[i])
-            if t["den"] >= 2 ** 31:
+            t["law"], t["den"], t["complete"] = _law_json(laws[i])
+            if any(max(e[1], e[2]) >= 2 ** 30 for e in t["law"]):
                 t["law"], t["den"], t["error"] = [], 1, "TooFine"
         t["_paths"] = paths
         if model in ("nameBT_mcmc", "slateBT_mcmc") and not t["error"]:
@@ -289,7 +293,7 @@ def sbt_kernel(g, inp, b, keep, max_paths):
 
 # ----------------------------------------------------------------------------- spatial models
 def spatial_work(inp):
-    _setup()
+    _setup(inp.get("real_df", False))
     import numpy as np
     import votekit.ballot_generator as bg
     from ..rng_gen import ENV
@@ -331,7 +335,7 @@ def spatial_work(inp):
                     pp, cp, vp = g.generate_profile_with_dict(dict(zip(cands, inp["per_cand"])))
                 t["cpos"] = [[c, [int(round(float(x))) for x in cp[c]]] for c in cands]
                 t["vpos"] = [[int(round(float(x))) for x in row] for row in np.asarray(vp).reshape(len(vp), -1)]
-        t["law"] = [[json.loads(_bag(pp, None)), 1]]
+        t["law"] = [[json.loads(_bag(pp, None)), 1, 1]]
     except Exception as ex:  # noqa
         t["error"] = type(ex).__name__
     return [t]
@@ -374,7 +378,8 @@ def grid(tier, seed):
         """bloc `test` carries the parameters under test, the other bloc is degenerate"""
         other = [s for s, _ in slates if s != test][0]
         ivs = {s: sup(len(cs), i if s == test else j) for s, cs in slates}
-        bs = {test: bloc(test, H, coh, slates, ivs), other: degenerate(other, H, slates, kw.pop("other_coh", O))}
+        pt = kw.pop("prop_test", H)
+        bs = {test: bloc(test, pt, coh, slates, ivs), other: degenerate(other, rat(1 - fr(pt)), slates, kw.pop("other_coh", O))}
         pts.append(dict({"model": model, "slates": slates, "blocs": [bs[s] for s, _ in slates], "N": N}, **kw))
 
     def both(model, slates, coh, i, j, N, **kw):
@@ -390,17 +395,18 @@ def grid(tier, seed):
                     for i in range(4):
                         if len(slates[0][1]) + len(slates[1][1]) <= 2 and i > 0:
                             continue
-                        big = sum(len(cs) for _, cs in slates) >= 5
-                        for N in ((2,) if big else (2, 4)):
-                            if q and rnd.random() < 0.72:
+                        nc = sum(len(cs) for _, cs in slates)
+                        big = nc >= 5
+                        for N in ((2,) if big or (q and nc >= 4) else (2, 3)):      # 3 ballots: two for the bloc under test (shares 3/4, 1/4)
+                            if q and rnd.random() < (0.6 if nc >= 4 else 0.5):
                                 continue
-                            kw = {}
+                            kw = {"prop_test": [3, 4]} if N == 3 else {}
                             if model == "cumulative":
                                 kw["k"] = rnd.choice([1, 2, 3] if not big else [2])
-                                if N == 4 and kw["k"] == 3 and sum(len(cs) for _, cs in slates) >= 4:
+                                if N == 3 and kw["k"] == 3 and nc >= 4:
                                     kw["k"] = 2
                             if model == "shortPL":
-                                kw["k"] = rnd.choice([1, 2, 3])
+                                kw["k"] = min(nc, rnd.choice([1, 2, 3]))
                             two(model, slates, test, coh, i, rnd.randrange(4), N, **kw)
         # two genuine blocs, one ballot each
         for slates in (S21, S12) + (() if q else (S22,)):
@@ -442,17 +448,19 @@ def grid(tier, seed):
                     for N in (4, 8):
                         if q and N == 8 and coh != O and rnd.random() < 0.5:
                             continue
-                        two("AC", slates, test, coh, i, 2, N)
+                        two("AC", slates, test, coh, i, i, N)      # the same number of supported candidates in both slates
     for coh in (O, T3):
-        two("AC", S22, "X", coh, 0, 2, 3, tag="split3")
+        two("AC", S22, "X", coh, 0, 0, 3, tag="split3")
         two("Cambridge", S21, "X", coh, 0, 2, 3, hist=HIST, tag="split3", own_first=True)
     both("AC", S22, T3, 0, 1, 4)
     # CambridgeSampler: scripted historical file; interval dictionaries given own-slate-first (the order the code assumes) ...
-    for slates in (S21, S12, S11) + (() if q else (S22,)):
-        for coh in (O, T3, H, Q):
+    for slates in ((S21, S11) if q else (S21, S12, S11, S22)):
+        for coh in ((O, T3, Q) if q else (O, T3, H, Q)):
             for test in ("X", "Y"):
-                for i in range(2 if q else 4):
+                for i in range(1 if q else 4):
                     if len(slates[0][1]) + len(slates[1][1]) <= 2 and i > 0:
+                        continue
+                    if slates is S22 and (i > 1 or coh in (O, H)):
                         continue
                     two("Cambridge", slates, test, coh, i, 2, 4, hist=HIST, own_first=True)
     # ... and in slate order for both blocs
@@ -489,11 +497,67 @@ def grid(tier, seed):
             nv = rnd.randint(1, 4)
         p["vpos"] = [[rnd.randint(-span, span) for _ in range(dim)] for _ in range(nv)]
         pts.append(p)
+    if not q:
+        for p in pts:
+            p.setdefault("max_paths", 60000)
     excl = set(x for x in (os.environ.get("C16_EXCLUDE") or "").split(",") if x)
     pts = [p for p in pts if p["model"] not in excl and p.get("tag", "") not in excl]
+    for p in pts:
+        if rnd.random() < 0.04:
+            p["real_df"] = True
+    only = set(x for x in (os.environ.get("C16_ONLY") or "").split(",") if x)
+    if only:
+        pts = [p for p in pts if p["model"] in only or p.get("tag", "") in only]
     # name-BT MCMC with a single supported candidate has nothing to swap (IndexError in the code: a C14 matter, not a distribution)
     pts = [p for p in pts if p["model"] != "nameBT_mcmc" or all(len(_supported(p, b, True)) >= 2 for b in p["blocs"])]
     return pts
+
+
+def binding_selftest(res, verdicts, byid):
+    """the specification is bound to what the code logged: exchange the probabilities of two outcomes of an accepted trace
+    (the sum stays one) / move one kernel entry -> the trace must be rejected"""
+    from .. import etrace
+    import copy
+    picked = {}
+    for tid in sorted(verdicts):
+        v, t = verdicts[tid], byid[tid]
+        if v["final"]["clause"] or v["rejects"]:
+            continue
+        ps = sorted(set((e[1], e[2]) for e in t["law"]))
+        if len(ps) >= 2 and t["op"] not in picked:
+            c = copy.deepcopy({k: x for k, x in t.items() if not k.startswith("_")})
+            i = next(k for k, e in enumerate(c["law"]) if (e[1], e[2]) == ps[0])
+            j = next(k for k, e in enumerate(c["law"]) if (e[1], e[2]) == ps[-1])
+            c["law"][i][1:], c["law"][j][1:] = c["law"][j][1:], c["law"][i][1:]
+            picked[t["op"]] = c
+        if t["kernel"] and t["op"] + "/kernel" not in picked:
+            for r in t["kernel"]:
+                if len(r[1]) >= 2 and r[1][0][1] != r[1][1][1]:
+                    c = copy.deepcopy({k: x for k, x in t.items() if not k.startswith("_")})
+                    rr = next(x for x in c["kernel"] if x[0] == r[0])
+                    rr[1][0][1], rr[1][1][1] = rr[1][1][1], rr[1][0][1]
+                    picked[t["op"] + "/kernel"] = c
+                    break
+    for tid in sorted(verdicts):          # spatial: reverse the ballots of a profile whose voters see all candidates at different distances
+        v, t = verdicts[tid], byid[tid]
+        if t["op"] in ("spatial", "spatial1d", "clustered") and not v["final"]["clause"] and t["op"] not in picked and len(t["cpos"]) >= 2:
+            def dist(a, b):
+                return sum(abs(x - y) for x, y in zip(a, b)) if t["metric"] == "l1" else sum((x - y) ** 2 for x, y in zip(a, b))
+            if all(len(set(dist(vp, cp) for _, cp in t["cpos"])) == len(t["cpos"]) for vp in t["vpos"]):
+                c = copy.deepcopy({k: x for k, x in t.items() if not k.startswith("_")})
+                for e in c["law"][0][0]:
+                    e[0] = e[0][::-1]
+                if sorted(map(json.dumps, c["law"][0][0])) != sorted(map(json.dumps, t["law"][0][0])):     # (a symmetric bag is its own mirror image)
+                    picked[t["op"]] = c
+    if not picked:
+        return
+    names = sorted(picked)
+    vs, stats, _ = etrace.validate([picked[n] for n in names], os.path.join(OUT, PID, "binding"), monitors=[], module="GenDistTrace")
+    missed = [n for k, n in enumerate(names) if not vs[k + 1]["final"]["clause"]]
+    res.notes["binding_selftest"] = {"corrupted": len(names), "rejected": len(names) - len(missed),
+                                     "clauses": {n: vs[k + 1]["final"]["clause"] for k, n in enumerate(names)}}
+    if missed:
+        raise Machinery("binding self-test: a corrupted probability was accepted for " + ", ".join(missed))
 
 
 def sig_of(t, rec):
@@ -502,6 +566,8 @@ def sig_of(t, rec):
         return None
     if t["_inp"].get("tag") == "split3":
         return "%s:Split(fewer ballots than voter types)" % t["op"]
+    if t["_inp"].get("tag") == "camorder":
+        return "Cambridge:CohesionByDictOrder"
     if cl.startswith("Error:"):
         return "%s:%s" % (t["op"], cl)
     return cl
@@ -509,6 +575,7 @@ def sig_of(t, rec):
 
 def run(tier, seed, replay=None):
     res = Result(PID, tier, seed)
+    rp = json.load(open(replay))["replay"]["input"] if replay else None      # (the replay file may live in the scratch directory)
     scratch(PID)
     res.rule = ("role 1: MC_GenDist -- for every integer support 0..MaxS of up to 2+2 candidates and every cohesion in {0,1/4,1/2,3/4,1} (parameters built by "
                 "actions) each specified law sums to one, Plackett-Luce restricted to the slates is Plackett-Luce per slate (independently), the Metropolis "
@@ -534,26 +601,22 @@ def run(tier, seed, replay=None):
         with ThreadPoolExecutor(max_workers=len(MC_GROUPS)) as ex:
             mc_out.extend(ex.map(one, range(len(MC_GROUPS))))
 
-    th = None
     if replay:
-        rp = json.load(open(replay))["replay"]["input"]
         pts = [rp]
     else:
-        th = threading.Thread(target=mc)
-        th.start()
-        pts = grid(tier, seed)
-    res.evaluations = len(pts)
-    with mp.get_context("fork").Pool(16 if replay or tier == "thorough" else 13) as pool:
-        traces = [t for ts in pool.imap_unordered(point_work, pts, chunksize=1) for t in ts]
-    traces.sort(key=lambda t: json.dumps({k: v for k, v in t.items() if not k.startswith("_")}, sort_keys=True))
-    if th:
-        th.join()
+        if not os.environ.get("C16_SKIP_MC"):
+            mc()
         for k, r in sorted(mc_out):
             res.add_tlc("MC_GenDist MaxS=%d %s" % (maxs, ",".join(MC_GROUPS[k])), r)
             if r["hard"]:
                 raise Machinery("TLC failed on MC_GenDist: " + tlc_error_excerpt(r["out"]))
             if r["violated"]:
                 res.violation("spec:MC_GenDist:%s" % r["violated"], "the specified laws violate %s" % r["violated"], {})
+        pts = grid(tier, seed)
+    res.evaluations = len(pts)
+    with mp.get_context("fork").Pool(16) as pool:
+        traces = [t for ts in pool.imap_unordered(point_work, pts, chunksize=1) for t in ts]
+    traces.sort(key=lambda t: json.dumps({k: v for k, v in t.items() if not k.startswith("_")}, sort_keys=True))
     # cases the explorer could not enumerate completely are not decided
     toomany = [t for t in traces if t["error"] in ("TooManyPaths", "TooFine")]
     traces = [t for t in traces if t["error"] not in ("TooManyPaths", "TooFine")]
@@ -565,11 +628,13 @@ def run(tier, seed, replay=None):
         d["traces"] += 1
         d["paths"] += t.get("_paths", 0)
         d["outcomes"] += len(t["law"]) + sum(len(r[1]) for r in t["kernel"])
-        if any(0 < e[1] < t["den"] for e in t["law"]) or any(0 < F(*x[1]) < 1 for r in t["kernel"] for x in r[1]) or \
+        if any(0 < e[1] < e[2] for e in t["law"]) or any(0 < F(*x[1]) < 1 for r in t["kernel"] for x in r[1]) or \
                 (t["op"].startswith("spatial") or t["op"] == "clustered") and len(t["cpos"]) >= 2:
             res.nontrivial.add(json.dumps({k: v for k, v in t["_inp"].items()}, sort_keys=True) + t["_bloc"])
     verdicts, byid = judge_calls(res, PID, "GenDistTrace", traces, what="the generator's exact law disagrees with the model", sig_of=sig_of,
                                  inexact_is_violation=False)
+    if not replay:
+        binding_selftest(res, verdicts, byid)
     info = {}
     for tid, v in verdicts.items():
         for m in v["monitors"]:
@@ -581,4 +646,6 @@ def run(tier, seed, replay=None):
     res.notes["not_enumerable_models"] = sorted(set(t["_inp"]["model"] for t in toomany))
     res.notes["kernel_differs_from_metropolis_but_stationary(info)"] = info
     res.notes["excluded_models"] = os.environ.get("C16_EXCLUDE") or ""
+    res.notes["only_models"] = os.environ.get("C16_ONLY") or ""
+    res.notes["mc_skipped"] = bool(os.environ.get("C16_SKIP_MC"))
     return res
